@@ -6,6 +6,7 @@ package c06
 import (
 	"context"
 	"encoding/json"
+	"errors"
 	"fmt"
 	"os"
 	"sort"
@@ -179,13 +180,16 @@ func validate(u gen.Universe, root [2]string, st *satTable) (obs, exp string, s 
 	rvk := resolve.VersionKey{PackageKey: resolve.PackageKey{System: resolve.NPM, Name: root[0]}, VersionType: resolve.Concrete, Version: root[1]}
 	ctx, cancel := context.WithTimeout(context.Background(), 5*time.Second)
 	g, e := npmresolve.NewResolver(client).Resolve(ctx, rvk)
+	timedOut := errors.Is(ctx.Err(), context.DeadlineExceeded) // (before cancel: afterwards Err is never nil)
 	cancel()
 	if e != nil {
-		if ctx.Err() != nil {
+		if timedOut {
 			// the recorded npm non-termination (C04): an alias repeated along a cycle
 			return "", "", s, "resolver-did-not-return-within-5s (C04 finding)", nil
 		}
-		return "", "", s, "resolve-error", nil
+		// The root exists and every requirement that cannot be met is to be
+		// reported on its node: Resolve has no reason to fail as a whole.
+		return fmt.Sprintf("Resolve fails on a universe whose root exists: %v", e), "a graph (requirements that cannot be resolved are node errors)", s, "ok", nil
 	}
 	if tree == nil {
 		return "", "", s, "", fmt.Errorf("harness: the verif hook did not fire (binary built without -tags verif?)")
